@@ -92,15 +92,16 @@ theorem recover_total_g1 (hr : ∀ P : E, G1.r • P = 0) (f : List (Zq G1.r))
     (Props.C09.zq_charGt G1.r n (Nat.lt_trans hn (by decide))) sigs
 
 /-- **C03 `recover_ok_verifies` for the driver**: whatever the driver's `recover` returns is the
-encoding of `f(0) • H(m)` and passes the driver's `bls.Verify` under the group key -/
+encoding of `f(0) • H(m)` and passes the driver's `bls.Verify` under the group key – ANY public
+polynomial (the guard of /repo 3cdfff8 refuses `t < len f`) -/
 theorem recover_ok_verifies_g1 (hr : ∀ P : E, G1.r • P = 0) (f : List (Zq G1.r))
-    (hm : Pt) (hv : Valid hm) (t n : Nat) (ht : 0 < t) (hf : f.length ≤ t) (hn : n < 2 ^ 63)
+    (hm : Pt) (hv : Valid hm) (t n : Nat) (ht : 0 < t) (hn : n < 2 ^ 63)
     (sigs : List Bytes) (s : Bytes) (h : recover g1Codec f hm sigs t n = .ok s) :
     s = G1.encode (G1.mul (f.headD 0).val hm) ∧ blsVerifyR g1Codec (f.headD 0) hm s = .ok := by
   have hmul := mulBridge
   letI := moduleE hr
   rw [← recover_eq_abstract hr hmul f hm hv sigs t n] at h
-  obtain ⟨_, h2, h3⟩ := Props.C03.recover_ok_verifies codecE codecE_roundtrip f (φ hm) t n ht hf
+  obtain ⟨_, h2, h3⟩ := Props.C03.recover_ok_verifies codecE codecE_roundtrip f (φ hm) t n ht
     (Props.C09.zq_charGt G1.r n (Nat.lt_trans hn (by decide))) sigs s h
   have hs : s = G1.encode (G1.mul (f.headD 0).val hm) := by
     rw [h2]
@@ -111,14 +112,15 @@ theorem recover_ok_verifies_g1 (hr : ∀ P : E, G1.r • P = 0) (f : List (Zq G1
   exact h3
 
 /-- **C03 `below_threshold_errors` for the driver**: fewer than `t` members with a countable entry ⇒
-"not enough shares", whatever else is in the list (no `hr`-free shortcut: the statement is transported
+an error ("not enough shares", or the refusal of a threshold below the polynomial's), whatever else is
+in the list (no `hr`-free shortcut: the statement is transported
 through the same module structure) -/
 theorem below_threshold_errors_g1 (hr : ∀ P : E, G1.r • P = 0) (f : List (Zq G1.r))
     (hm : Pt) (hv : Valid hm) (t n : Nat) (ht : 0 < t) (sigs : List Bytes)
     (hfew : ∀ signers : List Nat, signers.Nodup →
       (∀ i ∈ signers, i < n ∧ ∃ e ∈ sigs, sigIndex e = some i ∧
         G1.decode (sigValue e) = some (G1.mul (priEval f (i : Int)).val hm)) → signers.length < t) :
-    recover g1Codec f hm sigs t n = .errFew := by
+    recover g1Codec f hm sigs t n = if t < f.length then .errThreshold else .errFew := by
   have hmul := mulBridge
   letI := moduleE hr
   rw [← recover_eq_abstract hr hmul f hm hv sigs t n]
